@@ -56,6 +56,19 @@ CLAIMED = {
             "coefficients -9..12 / 3 interleaved managers; refusal = exception, permitted only for pb =,>,< and Heule k<3; store contents vs "
             "Robdd model are model conformance only; TLC coverage-based vacuity replaced by a check on the printed histories",
             "DESIGN.md 4 (C07)", ["PBExpr", "Robdd", "SatLayer", "SatTrace"]),
+    "C08": ("TLA+ spec RectSearch model-checked by TLC (declarative k-STOG definition = constructive generation = model of enforce_bb's "
+            "constraint system; solve loop sound, complete, ends on the optimum; negative run reproduces the border defect on the as-coded "
+            "model); TLC-generated (grid,k) and (grid,occupancy,k,optimum) cases replayed on rect.solve in fresh processes under 8 float "
+            "embeddings and through select_box; the complete projected model set of every generated CNF and every returned shape "
+            "trace-validated by TLC (RectSearchTrace)",
+            "Every k-STOG (k<=3, k<=4 on small grids) of every grid of a bounded universe (to 4x4; uniform, non-uniform, shifted and negative "
+            "origins) is enumerated by TLC and the three characterisations are TLC invariants; for every occupancy in {0,1/2,1}^cells of grids "
+            "up to 3x3 TLC computes the optimum, the real solver is driven across the sat/unsat boundary, and TLC judges the full model set "
+            "(missing and spurious) and each returned shape; seeded random larger grids follow the same path.",
+            "bounded grids (exhaustive to 4x4 shapes / 3x3 occupancies, random to 20 cells); floats sampled by 8 embeddings; minimum-error mode "
+            "ratio 2, non-zero occupancy; carrier is a SimpleNamespace (Carrier() needs a Windows DLL), so main() and the greedy seed are not "
+            "exercised; model enumeration capped at 40 000 per call (completeness skipped beyond)",
+            "DESIGN.md 4 (C08)", ["RectSearch", "RectSearchTrace"]),
     "C09": ("TLA+ spec Legal (legality clauses from the statement + the legaliser's equation groups transcribed from legalfloor.py) "
             "model-checked by TLC: 'system met <=> legal' as an invariant over bounded universes, incl. an as-coded model that must fail; "
             "TLC-generated netlists with their legal / single-clause-violating configurations replayed on the real tools.legalfloor Model "
